@@ -2454,7 +2454,7 @@ impl<'a> G<'a> {
                 self.tag("where.indexable");
             }
         }
-        let mut q = Select { distinct: false, from, where_, group_by: vec![], aggs: vec![], items: None, order_by: vec![], limit: None, offset: None };
+        let mut q = Select { distinct: false, from, where_, group_by: vec![], aggs: vec![], items: None, order_by: vec![], limit: None, offset: None, having: None };
         let kind = self.rng.below(10);
         if kind < 2 {
             self.tag("q.agg");
